@@ -644,6 +644,7 @@ func (g unionBuilderGenerator) emitKeyAssembler(w io.Writer) {
 				return nil
 			{{- end}}
 			}
+			ka.state = maState_initial // the rejected key changes nothing: another key may be tried.
 			return schema.ErrInvalidKey{TypeName:"{{ .PkgName }}.{{ .Type.Name }}", Key:&_String{k}} // TODO: error quality: ErrInvalidUnionDiscriminant ?
 		}
 	`, w, g.AdjCfg, g)
